@@ -10,7 +10,8 @@ What the rewriting ADDS (nothing is dropped, no statement is changed):
     touch state shared between threads (logger calls; in socket.py: statements that mention neither the hub, nor
     ``connected``, nor the wrapped ``method``) -- local statements commute with every step of every other thread,
     so leaving them out of the schedule loses no behaviour;
-  * ``sleep(t)`` becomes ``yield ("sleep", lineno)`` (the thread is descheduled until another thread moved);
+  * ``sleep(t)`` becomes ``yield ("sleep", lineno)`` (the thread is descheduled until another thread moved); a blocking
+    ``<event>.wait(..)`` in the hub becomes ``while not <event>.is_set(): yield ("sleep", lineno)``;
   * a call of a rewritten method (``self._wait_for_remote(..)``, ``self._SOCKET_HUB.send(..)``, ``method(self, ..)``
     in the logging decorators) becomes ``yield from <call>``;
   * ``__init__`` / ``__del__`` of the socket classes are renamed ``_init_steps`` / ``_del_steps`` (a constructor
@@ -116,6 +117,10 @@ class _Rewriter(ast.NodeTransformer):
             c = st.value
             if isinstance(c.func, ast.Name) and c.func.id == "sleep":
                 return [self._mark(st, fn, "sleep")]
+            if isinstance(c.func, ast.Attribute) and c.func.attr == "wait" and len(c.args) + len(c.keywords) <= 1 and self.which == "hub":
+                # a blocking wait on a threading.Event: the thread is descheduled until the event is set (timeouts are not modelled)
+                test = ast.UnaryOp(op=ast.Not(), operand=ast.Call(func=ast.Attribute(value=c.func.value, attr="is_set", ctx=ast.Load()), args=[], keywords=[]))
+                return [ast.While(test=test, body=[self._mark(st, fn, "sleep")], orelse=[])]
             if self._is_step_call(c):
                 return [ast.Expr(value=self._yf(c))]
         if isinstance(st, (ast.Assign, ast.AnnAssign)) and st.value is not None and self._is_step_call(st.value):
